@@ -166,7 +166,9 @@ def obligations(tier, seed):
         yield Ob('exact', {'n': n, 'ratio': 10, 'xi': 0.05, 'dt': 0.01}, query_ms=60000)
     for entry in ('nigam', 'object'):
         for lead0 in (False, True):
-            yield Ob('exact', {'n': 5, 'ratio': 10, 'xi': 0.05, 'dt': 0.01, 'lead0': lead0, 'entry': entry}, query_ms=60000)
+            # every entry point at the damping boundaries as well as at a typical value
+            for xi in (0, 0.05, 0.999):
+                yield Ob('exact', {'n': 5, 'ratio': 10, 'xi': xi, 'dt': 0.01, 'lead0': lead0, 'entry': entry}, query_ms=60000)
     for lead0 in (False, True):
         yield Ob('entry_points', {'n': 5, 'ratio': 7.3, 'xi': 0.05, 'dt': 0.01, 'lead0': lead0})
     # seeded random members of the grid interior
